@@ -257,3 +257,61 @@ Example spread_example :
   (* before member 1 has been told the joiner does not know the actor *)
   views 3 1 (fst (run 3 init [Tell [0] true; Act 1 0 0])) = [[1]; [1]; [1]; [0]].
 Proof. vm_compute. repeat split; reflexivity. Qed.
+
+(** ** The oracle of StaggerExec.v holds of every model run *)
+From HV Require Import StaggerExec.
+
+Lemma list_eqb_refl l : list_eqb l l = true.
+Proof. induction l as [|x l IH]; cbn; [reflexivity|]. rewrite Nat.eqb_refl, IH. reflexivity. Qed.
+
+Lemma view_of_ext a b nk : (forall k, a k = b k) -> view_of a nk = view_of b nk.
+Proof. intros H. unfold view_of. apply map_ext. intros k. rewrite H. reflexivity. Qed.
+
+(* the old members' maps ARE the map of returned PIDs *)
+Lemma olds_are_expect m ops s e :
+  Inv m s -> (forall i k, i < m -> omaps s i k = e k) ->
+  forall i k, i < m -> omaps (fst (run m s ops)) i k = expect_from e ops (snd (run m s ops)) k.
+Proof.
+  revert s e; induction ops as [|o ops IH]; intros s e I He i k Hi; cbn; [apply He; exact Hi|].
+  pose proof (Inv_step m s o I) as I1.
+  destruct (step m s o) as [s1 x] eqn:Hs. cbn in I1.
+  destruct (run m s1 ops) as [s2 xs] eqn:Hr. cbn.
+  replace s2 with (fst (run m s1 ops)) by (rewrite Hr; reflexivity).
+  replace xs with (snd (run m s1 ops)) by (rewrite Hr; reflexivity).
+  apply IH; [exact I1| |exact Hi].
+  intros i0 k0 Hi0. replace s1 with (fst (step m s o)) by (rewrite Hs; reflexivity).
+  replace x with (snd (step m s o)) by (rewrite Hs; reflexivity).
+  destruct o as [rs j|who kk sel].
+  - rewrite step_omaps_tell by assumption. cbn. apply He; exact Hi0.
+  - cbn. destruct (Nat.ltb who m) eqn:Hw; cbn; [|apply He; exact Hi0].
+    destruct (omaps s who kk) eqn:Hk; cbn; [apply He; exact Hi0|].
+    destruct (Nat.ltb sel m) eqn:Hsel; cbn; [|apply He; exact Hi0].
+    apply Nat.ltb_lt in Hi0 as Hb. rewrite Hb. unfold aadd.
+    destruct (Nat.eqb k0 kk); [|apply He; exact Hi0].
+    rewrite (He i0 kk Hi0). reflexivity.
+Qed.
+
+Theorem stagger_oracle_sound m nk ops :
+  0 < m -> all_told m (fst (run m init ops)) = true -> oracle (model_case m nk ops) = true.
+Proof.
+  intros Hm Hall. unfold oracle, model_case. cbn [c_views c_expect].
+  set (s := fst (run m init ops)) in *. set (e := expect_from aempty ops (snd (run m init ops))).
+  assert (Ho : forall i k, i < m -> omaps s i k = e k).
+  { intros i k Hi. unfold s, e. apply olds_are_expect; [apply Inv_init| |exact Hi]. reflexivity. }
+  pose proof (run_Inv m ops init (Inv_init m)) as I. fold s in I.
+  assert (Hj : forall k, jmap s k = e k).
+  { intros k. rewrite <- (Ho 0 k Hm). symmetry.
+    apply (inv_all m s I (proj1 (all_told_spec m s) Hall) 0 k Hm). }
+  unfold views. destruct (map (fun i => view_of (omaps s i) nk) (seq 0 m) ++ [view_of (jmap s) nk]) eqn:Hv.
+  { destruct (map (fun i => view_of (omaps s i) nk) (seq 0 m)); discriminate. }
+  rewrite <- Hv. apply forallb_forall. intros v Hin. apply in_app_or in Hin. destruct Hin as [Hin|[<-|[]]].
+  - apply in_map_iff in Hin. destruct Hin as (i & <- & Hi). apply in_seq in Hi.
+    rewrite (view_of_ext (omaps s i) e nk) by (intros k; apply Ho; lia). apply list_eqb_refl.
+  - rewrite (view_of_ext (jmap s) e nk Hj). apply list_eqb_refl.
+Qed.
+
+(* and, trivially, a model run corresponds to itself *)
+Lemma lists_eqb_refl l : lists_eqb l l = true.
+Proof. induction l as [|x l IH]; cbn; [reflexivity|]. rewrite list_eqb_refl, IH. reflexivity. Qed.
+Theorem stagger_corr_refl m nk ops : corr (model_case m nk ops) = true.
+Proof. unfold corr, model_case. cbn. rewrite list_eqb_refl, lists_eqb_refl. reflexivity. Qed.
